@@ -53,7 +53,7 @@ def classification : List (Site × Verdict) := [
   (("analyzer/analyzer.go", "Analyzer.dropScope", 0), .covered ``perm_invariant_dropScope ("unused types; " ++ warnings)),
   (("analyzer/analyzer.go", "Analyzer.dropScope", 1), .covered ``perm_invariant_dropScope ("unused variables / parameters / imports; " ++ warnings)),
   (("analyzer/ast/expression.go", "escapeHmsString", 0), .unobservable "three replacements of distinct single characters (newline, quote, tab); no replacement text contains a character another rule replaces: they commute (argued, exercised by C19)"),
-  (("analyzer/singleton.go", "Analyzer.WithCapabilities", 0), .unmodelled "capability conflicts of host templates: which of two conflicting capabilities is named may follow the order; host templates are outside the model (DESIGN §4.5), not generated"),
+  (("analyzer/singleton.go", "Analyzer.WithCapabilities", 0), .covered ``perm_invariant_sortByKey ("capability names of an implementation (repaired: finding A13); " ++ sortedFirst)),
   (("analyzer/topLevel.go", "Analyzer.validateTemplateConstraints", 0), .covered ``perm_invariant_emit ("required template methods; " ++ warnings ++ " (host templates: not generated)")),
   (("analyzer/topLevel.go", "Analyzer.validateTemplateConstraints", 1), .covered ``perm_invariant_any "is the method one of the required ones: an existence test"),
   (("compiler/compiler.go", "Compiler.Compile", 0), .covered ``perm_invariant_rebuild ("modules → output functions, keyed by mangled name (injective: mangleFn_injective_partial); " ++ insertOnly)),
@@ -82,6 +82,7 @@ def classification : List (Site × Verdict) := [
   (("interpreter/value/valueAnyObject.go", "ValueAnyObject.Display", 0), .covered ``perm_invariant_displayFields sortedFirst),
   (("interpreter/value/valueAnyObject.go", "ValueAnyObject.Fields", 0), .covered ``perm_invariant_sortByKey ("`keys`: " ++ sortedFirst)),
   (("interpreter/value/valueAnyObject.go", "ValueAnyObject.IsEqual", 0), .covered ``perm_invariant_fieldsEqual forall_),
+  (("interpreter/value/valueObject.go", "ValueObject.IntoAnyObject", 0), .covered ``perm_invariant_rebuild ("copy of the fields into the new any-object (repair X27); " ++ insertOnly)),
   (("interpreter/value/valueObject.go", "ValueObject.Display", 0), .covered ``perm_invariant_displayFields sortedFirst),
   (("interpreter/value/valueObject.go", "ValueObject.Fields", 0), .covered ``perm_invariant_sortByKey ("`keys`: " ++ sortedFirst)),
   (("interpreter/value/valueObject.go", "ValueObject.Fields", 1), .covered ``perm_invariant_rebuild ("fields → member table; " ++ insertOnly)),
